@@ -38,7 +38,9 @@ def simulate(fragment, nl, cycles, drive, observe, init_state=None):
             saved.append((sig, sig._init))
             from amaranth.hdl import Const
             sig._init = Const(v, sig.shape()).value
+    from .nir import preserved_domains
     try:
+      with preserved_domains(fragment):
         sim = Simulator(fragment)
         try:
             sim.add_clock(1e-6)
